@@ -13,15 +13,16 @@ META = {
     'functions': ['xrspatial.proximity.euclidean_distance', 'xrspatial.proximity.manhattan_distance', 'xrspatial.proximity.great_circle_distance',
                   'xrspatial.proximity._distance', 'xrspatial.convolution.circle_kernel', 'xrspatial.convolution.annulus_kernel', 'xrspatial.convolution._ellipse_kernel',
                   'xrspatial.convolution._get_distance', 'xrspatial.convolution._to_meters', 'xrspatial.convolution.calc_cellsize'],
-    'bounds': {'quick': 'metrics: all point pairs / triples symbolic reals (great-circle: lon in [-180,180], lat in [-90,90], and symbolic out-of-range values for the rejection claim); '
+    'bounds': {'quick': 'metrics: all point pairs / triples symbolic reals (great-circle: lon in [-180,180], lat in [-90,90], and symbolic out-of-range values for the rejection claim; the symmetry / bound claims additionally case-split into antimeridian-west, antimeridian-east, interior and pole regions); '
                         'kernels: radius in {1, 2, 2.5, "3", "0.002km"}, cell sizes symbolic with radius/cellsize < 4 (half-widths 0..3 per axis, concretised by the solver); '
-                        'annulus inner radius in {0.5, 1} x outer {2, 3}; unit table: every key, symbolic magnitude; distance strings: an enumerated list of well- and mal-formed strings',
+                        'annulus inner radius in {0.5, 1} x outer {2, 3}; NOT symbolic: six (radius, cell size) pairs whose kernels have cells exactly on the ellipse (half-widths 5, 13, 17, 25, 13x26); unit table: every key, symbolic magnitude; distance strings: an enumerated list of well- and mal-formed strings',
                'thorough': 'same with half-widths up to 5'},
     'stubs': ['libm sin/cos/asin/sqrt Ackermannised (range, sign on (0,pi), odd/even, sqrt zero / exact)', 'numba.jit = identity'],
     'outside': ['triangle inequality of the great-circle distance (needs spherical trigonometry that is not derivable from the first-order libm axioms)',
                 'haversine term a in [0,1] (trigonometric fact, assumed when bounding the distance)',
                 'euclidean "zero only when coincident" under float underflow', 'tokenisation of the radius string by re.split for symbolic strings (strings are enumerated)'],
     'assumptions': ['exact real arithmetic'],
+    'technique': 'solver-based bounded symbolic execution of the real Python source (z3), counterexample replay on the real build; kernels with cells exactly on the ellipse additionally by concrete evaluation (enumeration, not a solver verdict)',
     'budget_s': {'quick': 150, 'thorough': 900},
 }
 
